@@ -16,7 +16,9 @@ func init() {
 			"(4) the regex filter keeps a topic only if some include pattern matches and no exclude pattern matches (exclusions are applied after a positive match), remembers the verdict, and returns exactly the wanted topics; " +
 			"(5) every call that adds to the selection mirror m (AddConsumeTopics, AddConsumePartitions, initDirect) sits in a loop over the request itself (the parameter / the configured set), takes the loop's item as argument, is reached under no branch fact beyond those holding at the loop (no per-item guard, no continue before it), the loop is not guarded by a test of the direct consumer's own bookkeeping (tps, using, ps, reSeen, m, or a local derived from them) and has no early exit, and tps.storeTopics is called on the same path: m is what the user selected, tps is what metadata is loaded for, and membership in tps never gates a selection update; " +
 			"(6) cursor.unset unconditionally stores a constant negative lastConsumedEpoch (through setOffset, which is a whole-struct store of its argument, or by a field store) and clears the usable flag, and assignPartitions calls it on the walked used cursor in the invalidate-all and invalidate-matching arms; " +
-			"(7) sentinel writer/reader agreement: every constant lastConsumedEpoch stored in the package is negative, every cursorOffset literal gives the epoch explicitly (an omitted epoch is 0 = consumed), every comparison of the epoch with a constant puts all written sentinels on the same side, and migrateCursorTo re-validates and re-enables a moved cursor (cursor.use + epoch load) only under an epoch test that excludes every sentinel, so an unset (removed / never selected) partition is not resurrected by a leader move.",
+			"(7) sentinel writer/reader agreement: every constant lastConsumedEpoch stored in the package is negative, every cursorOffset literal gives the epoch explicitly (an omitted epoch is 0 = consumed), every comparison of the epoch with a constant puts all written sentinels on the same side, and migrateCursorTo re-validates and re-enables a moved cursor (cursor.use + epoch load) only under an epoch test that excludes every sentinel, so an unset (removed / never selected) partition is not resurrected by a leader move; " +
+			"(8) the internal flag read by the regex guard is propagated on every merge: metadataTopic.isInternal comes from the Metadata response's IsInternal, newPartitions copies it, and mergeTopicPartitions stores it into the kept topic data unguarded; " +
+			"(9) a whole-map store directConsumer.ps[t] = M is a fresh map only under `ps[t] == nil` (or at construction), AddConsumePartitions stores every requested (partition, offset) element-wise with no per-item guard, and ps entries are deleted only by RemoveConsumePartitions / purgeTopics.",
 		NotDecided: "eventual consumption of every selected partition (liveness), the group consumer's equivalent bookkeeping beyond the purge path, whether unset also resets offset / lastConsumedTime / hwm (only the epoch sentinel read by migrateCursorTo is decided), and other routes by which an unset cursor could be re-enabled (pending list / epoch loads are only covered through the load filter of assignPartitions, not decided here).",
 		Run:        runC39,
 	})
@@ -36,6 +38,7 @@ func runC39(c *Ctx) {
 		return
 	}
 	c39round3(c, m)
+	c39round4(c, m)
 	if f := c.NeedFunc(m, "kgo.Client.RemoveConsumePartitions"); f != nil {
 		rule := "remove-invalidates-then-forgets"
 		g := f.Graph()
